@@ -1,4 +1,4 @@
 SPECIFICATION Spec
-CONSTANTS MaxDepth = 4
+CONSTANTS MaxDepth = 3
 INVARIANTS InStep Gated
 CHECK_DEADLOCK FALSE
